@@ -22,15 +22,17 @@ structure Cur0 (s : St) : Prop where
   sc : ∀ (n : Nat) (x : Inst), s.insts[n]? = some x → curInst s ≠ some n → s.isCancelled x = true
   k1 : ∀ n, curInst s = some n → curCancel s = some n ∨ cancelledAt s n
 
-/-- a current instance with a live context derives from the container's context, which is set -/
+/-- a current instance that has not exited and has a live context derives from the container's context, which
+is set -/
 def K3 (s : St) : Prop :=
-  ∀ (n : Nat) (x : Inst), curInst s = some n → s.insts[n]? = some x → s.isCancelled x = false →
+  ∀ (n : Nat) (x : Inst), curInst s = some n → s.insts[n]? = some x → x.st ≠ .closed → s.isCancelled x = false →
     x.root = s.ctx ∧ s.ctx ≠ 0
 
 /-- cancellation only grows -/
 def CancMono (s s' : St) : Prop :=
   (∀ (n : Nat) (x : Inst), s.insts[n]? = some x →
-    ∃ x' : Inst, s'.insts[n]? = some x' ∧ x'.root = x.root ∧ (x.cancelled = true → x'.cancelled = true)) ∧
+    ∃ x' : Inst, s'.insts[n]? = some x' ∧ x'.root = x.root ∧ (x.cancelled = true → x'.cancelled = true) ∧
+      (x'.st ≠ .closed → x.st ≠ .closed)) ∧
   (∀ c, s.croots.contains c = true → s'.croots.contains c = true)
 
 theorem CancMono.of_ext {s s' : St} (h : InstsExt s s')
@@ -38,7 +40,7 @@ theorem CancMono.of_ext {s s' : St} (h : InstsExt s s')
   refine ⟨?_, h2⟩
   intro n x hx
   obtain ⟨y, hy, hle⟩ := h n x hx
-  exact ⟨y, hy, hle.2.2.1, hle.2.2.2.2.2.2⟩
+  exact ⟨y, hy, hle.2.2.1, hle.2.2.2.2.2.2, by rw [hle.2.2.2.1]; exact id⟩
 
 theorem CancMono.isCancelled {s s' : St} (h : CancMono s s') (n : Nat) (x x' : Inst)
     (hx : s.insts[n]? = some x) (hx' : s'.insts[n]? = some x') (hc : s.isCancelled x = true) :
@@ -47,7 +49,7 @@ theorem CancMono.isCancelled {s s' : St} (h : CancMono s s') (n : Nat) (x x' : I
   rw [hx'] at hy; cases hy
   simp only [St.isCancelled, Bool.or_eq_true] at hc ⊢
   rcases hc with hc | hc
-  · exact Or.inl (hle.2 hc)
+  · exact Or.inl (hle.2.1 hc)
   · right; rw [hle.1]; exact h.2 _ hc
 
 theorem CancMono.at {s s' : St} (h : CancMono s s') (n : Nat) (hc : cancelledAt s n) : cancelledAt s' n := by
@@ -180,9 +182,12 @@ theorem cur0_stopRec {s : St} (h : Cur0 s) (ha : AllRec s) (r : Nat) (hr : s.rou
 theorem K3.of_none {s : St} (h : curInst s = none) : K3 s := by
   intro n x hn; rw [h] at hn; cases hn
 
+@[simp] theorem get_set_self'' {α : Type} {l : List α} {i : Nat} (v : α) (h : i < l.length) :
+    (l.set i v)[i]? = some v := by simp [h]
+
 theorem K3.keep {s s' : St} (h : K3 s) (hm : CancMono s s') (hlen : s'.insts.length = s.insts.length)
     (hcur : curInst s' = curInst s) (hctx : s'.ctx = s.ctx) : K3 s' := by
-  intro n x' hn hx' hlive
+  intro n x' hn hx' hnc hlive
   rw [hcur] at hn
   cases hx : s.insts[n]? with
   | none =>
@@ -196,7 +201,7 @@ theorem K3.keep {s s' : St} (h : K3 s) (hm : CancMono s s') (hlen : s'.insts.len
       cases hcx : s.isCancelled x with
       | false => rfl
       | true => have := hm.isCancelled n x x' hx hx' hcx; rw [this] at hlive; cases hlive
-    have := h n x hn hx this
+    have := h n x hn hx (hle.2.2 hnc) this
     rw [hctx, hle.1]; exact this
 
 theorem get_set_self {α : Type} {l : List α} {i : Nat} (v : α) (h : i < l.length) : (l.set i v)[i]? = some v := by
@@ -235,7 +240,7 @@ theorem cur_startRec {S : St} (h : Cur0 S) (ha : AllRec S) (hk : K3 S) (r c : Na
       · intro n hn; left
         simp [curInst, curRec, hr, get_set_self _ hrlt] at hn
         simp [curCancel, curRec, hr, get_set_self _ hrlt, hn]
-      · intro n y hn hy _
+      · intro n y hn hy _ _
         simp [curInst, curRec, hr, get_set_self _ hrlt] at hn
         subst hn
         simp at hy; subst hy
@@ -250,11 +255,11 @@ theorem cur_normCtx {s : St} (h : Cur s) : Cur (normCtx s) := by
   have hci : curInst (normCtx s) = curInst s ∧ curCancel (normCtx s) = curCancel s := by
     simp [curInst, curCancel, curRec]
   refine ⟨h.1.frame (by simp) (by simp) hci.1 hci.2, ?_⟩
-  intro n x hn hx hlive
+  intro n x hn hx hnc hlive
   rw [hci.1] at hn
   have hx' : s.insts[n]? = some x := by simpa using hx
   have hl' : s.isCancelled x = false := by simpa [St.isCancelled] using hlive
-  have := h.2 n x hn hx' hl'
+  have := h.2 n x hn hx' hnc hl'
   unfold normCtx
   split
   · rename_i hc
@@ -290,7 +295,22 @@ theorem cur_setContextCS {s : St} (h : Cur s) (ha : AllRec s) (c : Nat) (restart
             simp only [Bool.and_eq_true] at hsame; simpa using hsame.1
           subst hc
           exact h
-        · have h1 : Cur0 { s with ctx := c } := h.1.frame rfl rfl rfl rfl
+        · split
+          · -- the failed routine keeps waiting for its retry: its last instance has exited
+            rename_i hd14
+            refine ⟨h.1.frame rfl rfl rfl rfl, ?_⟩
+            intro n x hn hxn hnc _
+            have hn' : rr.rctx = some n := by
+              have : curInst s = some n := hn
+              rw [(curInst_of hr hx).1] at this; exact this
+            have herr : rr.err ≠ none := by
+              simp only [Bool.and_eq_true] at hd14
+              intro e; rw [e] at hd14; simp at hd14
+            obtain ⟨z, hz, hzc⟩ := (ha r rr hx).kx herr n hn'
+            have hxn' : s.insts[n]? = some x := hxn
+            rw [hxn'] at hz; cases hz
+            exact absurd hzc hnc
+          have h1 : Cur0 { s with ctx := c } := h.1.frame rfl rfl rfl rfl
           have ha1 : AllRec { s with ctx := c } := ha.of_eq rfl (InstsExt.of_eq rfl)
           obtain ⟨h2, hnone⟩ := cur0_stopRec h1 ha1 r hr
           have hnone := hnone rr hx
@@ -314,7 +334,7 @@ theorem cur_cancel_clear {s : St} (h : Cur s) (ha : AllRec s) (r : Nat) (x y : R
     refine ⟨?_, by intro c hc; rw [hT2]; exact hc⟩
     intro n z hz
     obtain ⟨z', g1, g2⟩ := instsExt_cancelOpt s x.cancelOf n z hz
-    exact ⟨z', by rw [hT1]; exact g1, g2.2.2.1, g2.2.2.2.2.2.2⟩
+    exact ⟨z', by rw [hT1]; exact g1, g2.2.2.1, g2.2.2.2.2.2.2, by rw [g2.2.2.2.1]; exact id⟩
   have hlen : T.insts.length = s.insts.length := by rw [hT1]; simp
   have hcur : curInst T = curInst s := by rw [hcT.1, hcs.1, hy1]
   refine ⟨h.1.keep hm hlen (Or.inl hcur) ?_, h.2.keep hm hlen hcur hT5⟩
@@ -348,7 +368,7 @@ theorem cur_restartCS {s : St} (h : Cur s) (ha : AllRec s) : Cur (restartCS s).1
             recs := ((cancelOpt (normCtx s) x.cancelOf).recs.set r { x with cancelOf := none }).set r
               { x with cancelOf := none, exitedCh := none } } := by
           have hx' : (cancelOpt (normCtx s) x.cancelOf).recs[r]? = some x := by simpa using hx
-          have := (csok_set _ r x { x with cancelOf := none, exitedCh := none } hx' rfl (Or.inr rfl) (Or.inr rfl)).2
+          have := (csok_set _ r x { x with cancelOf := none, exitedCh := none } hx' rfl (Or.inr rfl) (Or.inr rfl) (Or.inl rfl)).2
             ((csok_cancelOpt _ _).2 ha0)
           simpa using this
         have hc0 : (cancelOpt (normCtx s) x.cancelOf).ctx ≠ 0 := by simpa using hctx
@@ -394,7 +414,7 @@ theorem cur_detachPrev {s : St} (h : Cur s) (ha : AllRec s) :
       refine ⟨?_, by intro c hc; simpa using hc⟩
       intro n z hz
       obtain ⟨z', g1, g2⟩ := instsExt_cancelOpt s x.cancelOf n z hz
-      exact ⟨z', by rw [e]; exact g1, g2.2.2.1, g2.2.2.2.2.2.2⟩
+      exact ⟨z', by rw [e]; exact g1, g2.2.2.1, g2.2.2.2.2.2.2, by rw [g2.2.2.2.1]; exact id⟩
     refine h.1.keep hm (by rw [e]; simp) (Or.inr ⟨hnone.1, ?_⟩) (by intro n hn; rw [hnone.1] at hn; cases hn)
     intro n hn
     obtain ⟨z, hz, hcz⟩ := cancelled_after_cancelOf h.1 ha r x hr hx n (by rw [← (curInst_of hr hx).1]; exact hn)
@@ -426,7 +446,7 @@ theorem cur_setRoutineLocked {s : St} (h : Cur s) (ha : AllRec s) (f arg : Nat) 
           routine := some (detachPrev (normCtx s)).1.recs.length } :=
         hd.1.frame rfl rfl (by rw [hcS.1, hdc.1]) (by rw [hcS.2, hdc.2])
       have haS := (csok_appendRec (detachPrev (normCtx s)).1 { fn := f, arg := arg } rfl rfl
-        (by intro p hp; cases hp) (some (detachPrev (normCtx s)).1.recs.length)).2 had
+        (some (detachPrev (normCtx s)).1.recs.length)).2 had
       have hc0 : (detachPrev (normCtx s)).1.ctx ≠ 0 := by simpa using hctx
       have := cur_startRec hS haS (K3.of_none hcS.1) (detachPrev (normCtx s)).1.recs.length
         (detachPrev (normCtx s)).1.ctx (detachPrev (normCtx s)).2.1 false rfl rfl hc0
@@ -439,9 +459,15 @@ theorem cur_setRoutineLocked {s : St} (h : Cur s) (ha : AllRec s) (f arg : Nat) 
           routine := some (detachPrev (normCtx s)).1.recs.length } = none := by
         simp [curInst, curCancel, curRec]
       exact cur_bcast ⟨hd.1.frame rfl rfl (by rw [hcS.1, hdc.1]) (by rw [hcS.2, hdc.2]), K3.of_none hcS.1⟩
-  · split
-    · exact cur_bcast hd
-    · exact hd
+  · have hd' : Cur { (detachPrev (normCtx s)).1 with cleared := (detachPrev (normCtx s)).2.1 } := by
+      have e1 : curInst { (detachPrev (normCtx s)).1 with cleared := (detachPrev (normCtx s)).2.1 } =
+          curInst (detachPrev (normCtx s)).1 := rfl
+      have e2 : curCancel { (detachPrev (normCtx s)).1 with cleared := (detachPrev (normCtx s)).2.1 } =
+          curCancel (detachPrev (normCtx s)).1 := rfl
+      exact ⟨hd.1.frame rfl rfl e1 e2, hd.2.keep (cancMono_of_eq rfl rfl) rfl e1 rfl⟩
+    split
+    · exact cur_bcast hd'
+    · exact hd'
 
 /-- states that agree on everything the invariant looks at -/
 theorem Cur.frame {s s' : St} (h : Cur s) (h1 : s'.insts = s.insts) (h2 : s'.croots = s.croots)
@@ -500,7 +526,7 @@ theorem cur_apiCS {s : St} (h : Cur s) (ha : AllRec s) (cf : Cfg) (op : Op) (r :
     · simp at hr; subst hr; exact h
   | waitExited _ => simp [apiCS] at hr
 
-theorem cur_timerBody {s : St} (h : Cur s) (ha : AllRec s) (r : Nat) : Cur (timerBody s r) := by
+theorem cur_timerBody {s : St} (h : Cur s) (ha : AllRec s) (t r : Nat) : Cur (timerBody s t r) := by
   simp only [timerBody]
   apply cur_bcast
   split
@@ -509,21 +535,29 @@ theorem cur_timerBody {s : St} (h : Cur s) (ha : AllRec s) (r : Nat) : Cur (time
     · rename_i hc
       simp only [Bool.and_eq_true] at hc
       have hr : s.routine = some r := by simpa using hc.1.2
-      have hc0 : s.ctx ≠ 0 := by simpa using hc.1.1
-      exact cur_startRec h.1 ha h.2 r s.ctx x.exitedCh true hr rfl hc0
+      have hc0 : s.ctx ≠ 0 := by simpa using hc.1.1.2
+      have hlt := get_lt hx
+      have hci : curInst { s with recs := s.recs.set r { x with retry := none } } = curInst s ∧
+          curCancel { s with recs := s.recs.set r { x with retry := none } } = curCancel s := by
+        simp [curInst, curCancel, curRec, hr, hlt, getElem_of_get hx hlt]
+      have h' : Cur { s with recs := s.recs.set r { x with retry := none } } :=
+        ⟨h.1.frame rfl rfl hci.1 hci.2, h.2.keep (cancMono_of_eq rfl rfl) rfl hci.1 rfl⟩
+      have ha' := (csok_set s r x { x with retry := none } hx rfl (Or.inl rfl) (Or.inl rfl) (Or.inl rfl)).2 ha
+      exact cur_startRec h'.1 ha' h'.2 r s.ctx x.exitedCh true hr rfl hc0
     · exact h
   · exact h
 
 /-- an instance moves (program counter, result, recorded flag; possibly its own `cancel()`) -/
 theorem cur_setInst {s : St} (h : Cur s) (n : Nat) (x y : Inst) (hx : s.insts[n]? = some x)
-    (hroot : y.root = x.root) (hc : x.cancelled = true → y.cancelled = true) : Cur (setInst s n y) := by
+    (hroot : y.root = x.root) (hc : x.cancelled = true → y.cancelled = true)
+    (hst : y.st ≠ .closed → x.st ≠ .closed := by simp_all) : Cur (setInst s n y) := by
   have hm : CancMono s (setInst s n y) := by
     refine ⟨?_, fun _ h => h⟩
     intro m z hz
     by_cases hnm : n = m
     · subst hnm; rw [hx] at hz; cases hz
-      exact ⟨y, by simp [setInst, get_lt hx], hroot, hc⟩
-    · exact ⟨z, by simp [setInst, List.getElem?_set, hnm, hz], rfl, id⟩
+      exact ⟨y, by simp [setInst, get_lt hx], hroot, hc, hst⟩
+    · exact ⟨z, by simp [setInst, List.getElem?_set, hnm, hz], rfl, id, id⟩
   have hci : curInst (setInst s n y) = curInst s ∧ curCancel (setInst s n y) = curCancel s := by
     simp [curInst, curCancel, curRec, setInst]
   refine ⟨h.1.keep hm (by simp [setInst]) (Or.inl hci.1) ?_, h.2.keep hm (by simp [setInst]) hci.1 rfl⟩
@@ -575,7 +609,7 @@ theorem cur_recordCS {s s' : St} (h : Cur s) (cf : Cfg) (n : Nat) (x : Inst) (du
 theorem cur_envCancel {s : St} (h : Cur s) (c : Nat) (p : List Nat) :
     Cur { s with pcancel := p, croots := c :: s.croots } := by
   have hm : CancMono s { s with pcancel := p, croots := c :: s.croots } := by
-    refine ⟨fun n x hx => ⟨x, hx, rfl, id⟩, ?_⟩
+    refine ⟨fun n x hx => ⟨x, hx, rfl, id, id⟩, ?_⟩
     intro d hd
     simp only [List.contains_cons, Bool.or_eq_true]
     exact Or.inr hd
@@ -748,7 +782,7 @@ theorem step_cur (s s' : St) (e : Ev) (h : Cur s) (ha : AllRec s) (hs : step s e
       split at hs
       · simp at hs; subst hs
         exact cur_timerBody (s := { s with timers := s.timers.set t { tm with st := .dead } })
-          (h.frame rfl rfl rfl rfl rfl) (ha.of_eq rfl (InstsExt.of_eq rfl)) tm.rid
+          (h.frame rfl rfl rfl rfl rfl) (ha.of_eq rfl (InstsExt.of_eq rfl)) t tm.rid
       · cases hs
     · cases hs
   | probeCtx k b =>
